@@ -28,22 +28,39 @@ Finished == {Cfg(Done3, 1, Unl, {"FAILED"}, {}, {}),       \* stat(FAILED)
              Cfg(Done2F, 1, Unl, {"FAILED"}, {}, {}),      \* every job re-opened (a job failing AGAIN under stat(FAILED) is re-opened by the next process: excluded)
              Cfg(Done2F, 2, 1, {"FAILED"}, {}, {})}        \* maxjobs stops the processes
 FinishedSmall == {Cfg(Done3, 1, Unl, {"FAILED"}, {8}, {}), Cfg(Done3, 2, Unl, {}, {9}, {}), Cfg(Done3, 1, Unl, {}, {7}, {})}
-QuickConfigs == Plain(3, {1, 2}, {1, 2, Unl}) \cup Failing \cup Restart \cup Finished
-CrashConfigs == Plain(3, {1, 2}, {Unl}) \cup {Cfg(Fresh(3), 1, 1, {}, {}, {})} \cup {Cfg(Old3, 1, Unl, {"FAILED"}, {}, {})} \cup FinishedSmall
-ThoroughConfigs == Plain(4, {1, 2, 3}, {1, 2, Unl}) \cup Failing \cup Restart \cup Restart4 \cup Finished
+\* patterns naming a status that THIS run produces (only the per-run clauses apply across processes):
+\* (a) stat(FAILED) while jobs fail, more startable jobs than the cache so that a full chunk is followed by another sync
+LiveA1 == Cfg(Fresh(3), 1, Unl, {"FAILED"}, {}, {1, 2})
+LiveA2 == Cfg(Fresh(4), 2, Unl, {"FAILED"}, {}, {2, 3})
+LiveA3 == Cfg(<<Rec("FAILED", 9, 9), Av, Av>>, 1, Unl, {"FAILED"}, {}, {1})
+\* (b) stat(ASSIGNED): re-open the jobs of a crashed run; with NT = 2 a worker still runs the last job of a full chunk
+\* (ASSIGNED by this very process) when the other one syncs
+LiveB1 == Cfg(<<Rec("ASSIGNED", 8, 0), Av, Av>>, 1, Unl, {"ASSIGNED"}, {}, {})
+LiveB2 == Cfg(<<Rec("ASSIGNED", 8, 0), Av, Av, Av>>, 2, Unl, {"ASSIGNED"}, {}, {})
+LiveB3 == Cfg(<<Rec("ASSIGNED", 8, 0), Rec("ASSIGNED", 9, 0), Rec("COMPLETE", 9, 9)>>, 1, Unl, {"ASSIGNED"}, {}, {})
+LiveB0 == Cfg(<<Rec("ASSIGNED", 8, 0), Av>>, 1, Unl, {"ASSIGNED"}, {}, {})      \* smallest case of (b) for NT = 2
+LiveA0 == Cfg(Fresh(2), 1, Unl, {"FAILED"}, {}, {1})                             \* smallest case of (a)
+LiveSmall == {LiveA1, LiveA3, LiveB1, LiveB3}
+Live == {LiveA1, LiveA2, LiveA3, LiveB1, LiveB2, LiveB3}
+QuickConfigs == Plain(3, {1, 2}, {1, 2, Unl}) \cup Failing \cup Restart \cup Finished \cup LiveSmall
+CrashConfigs == Plain(3, {1, 2}, {Unl}) \cup {Cfg(Fresh(3), 1, 1, {}, {}, {})} \cup {Cfg(Old3, 1, Unl, {"FAILED"}, {}, {})} \cup FinishedSmall \cup {LiveA1, LiveB1}
+ThoroughConfigs == Plain(4, {1, 2, 3}, {1, 2, Unl}) \cup Failing \cup Restart \cup Restart4 \cup Finished \cup Live
 P3Configs == {Cfg(Fresh(3), 1, Unl, {}, {}, {}), Cfg(Fresh(3), 2, Unl, {}, {}, {}), Cfg(Fresh(3), 1, 1, {}, {}, {}),
               Cfg(Done3, 1, Unl, {"FAILED"}, {8}, {})}
 P3QuickConfigs == {Cfg(Fresh(1), 1, Unl, {}, {}, {}), Cfg(<<Rec("FAILED", 9, 9)>>, 1, Unl, {"FAILED"}, {}, {})}
-T2Configs == Plain(3, {1, 2}, {Unl}) \cup {Cfg(Fresh(3), 1, 2, {}, {}, {}), Cfg(Old3, 1, Unl, {"FAILED"}, {}, {})} \cup FinishedSmall
+T2Configs == Plain(3, {1, 2}, {Unl}) \cup {Cfg(Fresh(3), 1, 2, {}, {}, {}), Cfg(Old3, 1, Unl, {"FAILED"}, {}, {})} \cup FinishedSmall \cup {LiveB0, LiveA0}
 DemoConfigs == {Cfg(Fresh(2), 1, Unl, {}, {}, {})}
 GraphQuickConfigs == {Cfg(Fresh(1), 1, Unl, {}, {}, {})}
 GraphThoroughConfigs == {Cfg(Fresh(2), 1, Unl, {}, {}, {}), Cfg(Fresh(2), 2, Unl, {}, {}, {})}
-SimConfigs == Plain(4, {1, 2, 3}, {1, 2, Unl}) \cup Failing \cup Restart \cup Restart4 \cup Finished
-CrashThoroughConfigs == Plain(3, {1, 2}, {Unl, 2}) \cup Restart \cup Finished \cup {Cfg(Fresh(4), 2, Unl, {}, {}, {})}
-T2QuickConfigs == {Cfg(Fresh(2), 1, Unl, {}, {}, {}), Cfg(Fresh(2), 2, Unl, {}, {}, {}), Cfg(Done3, 1, Unl, {"FAILED"}, {8}, {})}
-SimQuickConfigs == Plain(3, {1, 2}, {2, Unl}) \cup Failing \cup Restart \cup Finished
+SimConfigs == Plain(4, {1, 2, 3}, {1, 2, Unl}) \cup Failing \cup Restart \cup Restart4 \cup Finished \cup Live
+CrashThoroughConfigs == Plain(3, {1, 2}, {Unl, 2}) \cup Restart \cup Finished \cup Live \cup {Cfg(Fresh(4), 2, Unl, {}, {}, {})}
+T2QuickConfigs == {Cfg(Fresh(2), 1, Unl, {}, {}, {}), Cfg(Fresh(2), 2, Unl, {}, {}, {}), Cfg(Done3, 1, Unl, {"FAILED"}, {8}, {}), LiveA0}
+SimQuickConfigs == Plain(3, {1, 2}, {2, Unl}) \cup Failing \cup Restart \cup Finished \cup LiveSmall
 AnyTime == {{}}
 OneCrash == {{k} : k \in 2..70}
 TwoCrashes == {{k, k + d} : k \in 2..60, d \in {1, 2, 5, 11, 23}} \cup OneCrash \cup {{1000}}
-EmitCrashConfigs == Plain(2, {1, 2}, {Unl}) \cup {Cfg(Fresh(3), 1, Unl, {}, {}, {}), Cfg(Old3, 1, Unl, {"FAILED"}, {}, {})} \cup FinishedSmall
+EmitCrashConfigs == Plain(2, {1, 2}, {Unl}) \cup {Cfg(Fresh(3), 1, Unl, {}, {}, {}), Cfg(Old3, 1, Unl, {"FAILED"}, {}, {})} \cup FinishedSmall \cup {LiveA1, LiveB1}
+\* one process, two worker threads: a worker still runs the last job of a full chunk when the other one syncs
+P1T2Configs == Live \cup {LiveA0, LiveB0} \cup Plain(3, {1, 2}, {Unl})
+SimT2Configs == T2Configs \cup {LiveB1}
 ====
